@@ -1,7 +1,261 @@
+import ElvisVerif.Model.Codec.Ipv4
+import ElvisVerif.Model.Codec.Udp
+import ElvisVerif.Model.Codec.Tcp
 import Driver.Common
-/-! Line-protocol handlers for C08 (sub-commands `c08` / `c08-*`). -/
+/-! Line-protocol handlers for the IPv4 / UDP / TCP codecs and the checksum accumulator:
+sub-commands `c08-ipv4`, `c08-udp`, `c08-tcp` (also used by `c18-*` and `c14-ipv4/udp/tcp`).
+Every op line is self-contained; the only state is the `ck` flag (is the code under test built
+with `compute_checksum`), announced by the harness with a `ck 0|1` line after every `case`. -/
 namespace Driver.C08
+open Elvis.Codec Elvis.Ck
 
-def dispatch (_sub : String) (_i _o : IO.FS.Stream) : Option (IO Unit) := none
+def nat? (s : String) : Option Nat := s.toNat?
+
+def nats? (ws : List String) : Option (List Nat) := ws.mapM nat?
+
+def failStr {ε : Type} (f : ε → String) : Fail ε → String
+  | .err e => "err " ++ f e
+  | .panic s => s
+
+/-- flip bit `i` (bit 0 = most significant bit of byte 0); out of range = no-op -/
+def flipBit : List UInt8 → Nat → List UInt8
+  | [], _ => []
+  | b :: r, i => if i < 8 then (b ^^^ ((0x80 : UInt8) >>> i.toUInt8)) :: r else b :: flipBit r (i - 8)
+
+def parseBits (s : String) : List Nat := (s.splitOn ",").filterMap nat?
+
+/-! ### IPv4 -/
+
+def ip4PErr : Ipv4.ParseError → String
+  | .headerTooShort => "HeaderTooShort"
+  | .incorrectIpv4Version => "IncorrectIpv4Version"
+  | .invalidHeaderLength => "InvalidHeaderLength"
+  | .usedReservedTos => "UsedReservedTos"
+  | .usedReservedFlag => "UsedReservedFlag"
+  | .invalidTotalLength => "InvalidTotalLength"
+  | .checksum e a => s!"Checksum expected={e} actual={a}"
+
+def ip4BErr : Ipv4.BuildError → String
+  | .overlyLongPayload => "OverlyLongPayload"
+  | .overlyLongFragmentOffset => "OverlyLongFragmentOffset"
+
+def ip4Hdr (h : Ipv4.Header) : String :=
+  s!"{h.ihl} {h.tos} {h.totalLength} {h.identification} {h.fragmentOffset} {h.flags} {h.ttl} {h.protocol} {h.checksum} {h.source} {h.destination}"
+
+def ip4Builder? (ws : List String) : Option Ipv4.Builder := do
+  match ← nats? ws with
+  | [tos, pl, id, fo, fl, ttl, pr, src, dst] =>
+    pure { tos := tos, payloadLength := pl, identification := id, fragmentOffset := fo, flags := fl,
+           ttl := ttl, protocol := pr, source := src, destination := dst }
+  | _ => none
+
+def ip4DecAnswer (ck : Bool) (bs : List UInt8) : String :=
+  match Ipv4.fromBytes ck bs with
+  | .error f => failStr ip4PErr f
+  | .ok h =>
+    let re := match Ipv4.serialize ck h with
+      | .ok b => toHex b
+      | .error (.err e) => "err:" ++ ip4BErr e
+      | .error (.panic s) => s
+    s!"ok {ip4Hdr h} re={re}"
+
+def ip4Op (ck : Bool) (op : String) (ws : List String) : Option String :=
+  match op, ws with
+  | "ip4build", ws => do
+    let b ← ip4Builder? ws
+    pure (match Ipv4.build ck b with
+      | .ok bytes => "ok " ++ toHex bytes
+      | .error f => failStr ip4BErr f)
+  | "ip4dec", [h] => do pure (ip4DecAnswer ck (← parseHex h))
+  | "ip4flip", [bits, h] => do
+    pure (ip4DecAnswer ck ((parseBits bits).foldl flipBit (← parseHex h)))
+  | "ip4rt", ws => do
+    if ws.length ≠ 10 then none
+    let b ← ip4Builder? (ws.take 9)
+    let payload ← parseHex (ws.getD 9 "")
+    pure (match Ipv4.build ck b with
+      | .error f => failStr ip4BErr f
+      | .ok bytes =>
+        match Ipv4.fromBytes ck (bytes ++ payload) with
+        | .ok h => "ok " ++ ip4Hdr h
+        | .error f => failStr ip4PErr f)
+  | "ip4ser", ws => do
+    match ← nats? ws with
+    | [ihl, tos, tl, id, fo, fl, ttl, pr, c, src, dst] =>
+      let h : Ipv4.Header :=
+        { ihl := ihl, tos := tos, totalLength := tl, identification := id,
+          fragmentOffset := fo, flags := fl, ttl := ttl, protocol := pr, checksum := c, source := src,
+          destination := dst }
+      pure (match Ipv4.serialize ck h with
+        | .ok bytes => "ok " ++ toHex bytes
+        | .error f => failStr ip4BErr f)
+    | _ => none
+  | "ip4tos", [t] => do
+    let t ← nat? t
+    pure (match Ipv4.tosPrecedence t, Ipv4.tosDelay t, Ipv4.tosThroughput t, Ipv4.tosReliability t with
+      | .ok p, .ok d, .ok th, .ok r => s!"ok {p} {d} {th} {r}"
+      | .error (.panic s), _, _, _ => s
+      | _, .error (.panic s), _, _ => s
+      | _, _, .error (.panic s), _ => s
+      | _, _, _, .error (.panic s) => s
+      | _, _, _, _ => "err")
+  | "ip4tosnew", [p, d, t, r] => do
+    pure s!"ok {Ipv4.tosNew (← nat? p) (← nat? d) (← nat? t) (← nat? r)}"
+  | "ip4flags", [m, l] =>
+    let v := Ipv4.flagsNew (m == "1") (l == "1")
+    some s!"ok {v} {(Ipv4.flagsMayFragment v).toNat} {(Ipv4.flagsIsLastFragment v).toNat}"
+  | _, _ => none
+
+/-! ### checksum accumulator -/
+
+def cksumItem (ck : Bool) (acc : Nat) (it : String) : Option Nat :=
+  match it.splitOn ":" with
+  | ["h", v] => do pure (add16 ck acc (← nat? v))
+  | ["b", a, b] => do pure (addU8 ck acc (← nat? a) (← nat? b))
+  | ["w", v] => do pure (addWord32 ck acc (← nat? v))
+  | ["r", h] => do pure (accumulateRemainder ck acc (← parseHex h))
+  | _ => none
+
+def cksumOp (ck : Bool) (ws : List String) : Option String := do
+  let acc ← ws.foldlM (cksumItem ck) 0
+  pure s!"raw={acc} as={asU16 ck acc}"
+
+/-! ### UDP -/
+
+def udpPErr : Udp.ParseError → String
+  | .headerTooShort => "HeaderTooShort"
+  | .lengthMismatch => "LengthMismatch"
+  | .checksum a e => s!"Checksum expected={e} actual={a}"
+
+def udpDecAnswer (ck : Bool) (bs : List UInt8) (plen src dst : Nat) : String :=
+  match Udp.fromBytes ck bs plen src dst with
+  | .error f => failStr udpPErr f
+  | .ok h =>
+    let re :=
+      if plen == bs.length && bs.length ≥ 8 then
+        match Udp.build ck src h.source dst h.destination (bs.drop 8) (bs.length - 8) with
+        | .ok b => toHex b
+        | .error (.err .overlyLongPayload) => "err:OverlyLongPayload"
+        | .error (.panic s) => s
+      else "skip"
+    s!"ok {h.source} {h.destination} {h.length} {h.checksum} re={re}"
+
+def udpOp (ck : Bool) (op : String) (ws : List String) : Option String :=
+  match op, ws with
+  | "udpbuild", [src, sp, dst, dp, tl, h] => do
+    pure (match Udp.build ck (← nat? src) (← nat? sp) (← nat? dst) (← nat? dp) (← parseHex h) (← nat? tl) with
+      | .ok b => "ok " ++ toHex b
+      | .error (.err .overlyLongPayload) => "err OverlyLongPayload"
+      | .error (.panic s) => s)
+  | "udpdec", [pl, src, dst, h] => do
+    pure (udpDecAnswer ck (← parseHex h) (← nat? pl) (← nat? src) (← nat? dst))
+  | "udpflip", [bits, pl, src, dst, h] => do
+    pure (udpDecAnswer ck ((parseBits bits).foldl flipBit (← parseHex h)) (← nat? pl) (← nat? src) (← nat? dst))
+  | "udprt", [src, sp, dst, dp, h] => do
+    let (src, sp, dst, dp, text) := (← nat? src, ← nat? sp, ← nat? dst, ← nat? dp, ← parseHex h)
+    pure (match Udp.build ck src sp dst dp text text.length with
+      | .error (.err .overlyLongPayload) => "err OverlyLongPayload"
+      | .error (.panic s) => s
+      | .ok b =>
+        match Udp.fromBytes ck (b ++ text) (b.length + text.length) src dst with
+        | .ok h => s!"ok {h.source} {h.destination} {h.length} {h.checksum}"
+        | .error f => failStr udpPErr f)
+  | _, _ => none
+
+/-! ### TCP -/
+
+def tcpPErr : Tcp.ParseError → String
+  | .headerTooShort => "HeaderTooShort"
+  | .packetTooLong => "PacketTooLong"
+  | .unexpectedOptions => "UnexpectedOptions"
+  | .checksum a e => s!"Checksum expected={e} actual={a}"
+
+def tcpHdr (h : Tcp.Header) : String :=
+  s!"{h.srcPort} {h.dstPort} {h.seq} {h.ack} {h.dataOffset} {h.ctl} {h.wnd} {h.urg} {h.checksum}"
+
+def tcpSetter (h : Tcp.Header) (s : String) : Option Tcp.Header :=
+  match s.splitOn "=" with
+  | ["wnd", v] => do pure (Tcp.builderWnd h (← nat? v))
+  | ["ack", v] => do pure (Tcp.builderAck h (← nat? v))
+  | ["urg", v] => do pure (Tcp.builderUrg h (← nat? v))
+  | ["psh"] => some (Tcp.builderPsh h)
+  | ["rst"] => some (Tcp.builderRst h)
+  | ["syn"] => some (Tcp.builderSyn h)
+  | ["fin"] => some (Tcp.builderFin h)
+  | _ => none
+
+def tcpBuilder? (sp dp seq setters : String) : Option Tcp.Header := do
+  let h := Tcp.builderNew (← nat? sp) (← nat? dp) (← nat? seq)
+  if setters == "-" then pure h else (setters.splitOn ",").foldlM tcpSetter h
+
+def tcpDecAnswer (ck : Bool) (bs : List UInt8) (plen src dst : Nat) : String :=
+  match Tcp.fromBytes ck bs plen src dst with
+  | .error f => failStr tcpPErr f
+  | .ok h => s!"ok {tcpHdr h} re={toHex (Tcp.serialize h)}"
+
+def bit (b : Bool) : Nat := b.toNat
+
+def tcpOp (ck : Bool) (op : String) (ws : List String) : Option String :=
+  match op, ws with
+  | "tcpbuild", [sp, dp, seq, setters, src, dst, tl, h] => do
+    let b ← tcpBuilder? sp dp seq setters
+    pure (match Tcp.build ck b (← nat? src) (← nat? dst) (← parseHex h) (← nat? tl) with
+      | .ok hd => s!"ok {tcpHdr hd} ser={toHex (Tcp.serialize hd)}"
+      | .error (.err .overlyLongPayload) => "err OverlyLongPayload"
+      | .error (.panic s) => s)
+  | "tcpser", ws => do
+    match ← nats? ws with
+    | [sp, dp, seq, ack, doff, ctl, wnd, urg, c] =>
+      let h : Tcp.Header :=
+        { srcPort := sp, dstPort := dp, seq := seq, ack := ack, dataOffset := doff,
+          ctl := ctl, wnd := wnd, urg := urg, checksum := c }
+      let hb := match Tcp.headerBytes h with
+        | .ok n => toString n
+        | .error (.panic s) => s
+        | .error (.err _) => "err"
+      pure s!"ok {toHex (Tcp.serialize h)} hb={hb}"
+    | _ => none
+  | "tcpdec", [pl, src, dst, h] => do
+    pure (tcpDecAnswer ck (← parseHex h) (← nat? pl) (← nat? src) (← nat? dst))
+  | "tcpflip", [bits, pl, src, dst, h] => do
+    pure (tcpDecAnswer ck ((parseBits bits).foldl flipBit (← parseHex h)) (← nat? pl) (← nat? src) (← nat? dst))
+  | "tcprt", [sp, dp, seq, setters, src, dst, h] => do
+    let b ← tcpBuilder? sp dp seq setters
+    let (src, dst, text) := (← nat? src, ← nat? dst, ← parseHex h)
+    pure (match Tcp.build ck b src dst text text.length with
+      | .error (.err .overlyLongPayload) => "err OverlyLongPayload"
+      | .error (.panic s) => s
+      | .ok hd =>
+        match Tcp.fromBytes ck (Tcp.serialize hd ++ text) (20 + text.length) src dst with
+        | .ok h2 => "ok " ++ tcpHdr h2
+        | .error f => failStr tcpPErr f)
+  | "tcpctl", [u, a, p, r, s, f] =>
+    let b := fun (x : String) => x == "1"
+    let v := Tcp.ctlNew (b u) (b a) (b p) (b r) (b s) (b f)
+    some s!"ok {v} {bit (Tcp.ctlUrg v)} {bit (Tcp.ctlAck v)} {bit (Tcp.ctlPsh v)} {bit (Tcp.ctlRst v)} {bit (Tcp.ctlSyn v)} {bit (Tcp.ctlFin v)}"
+  | "tcpbits", [v] => do
+    let v ← nat? v
+    pure s!"ok {bit (Tcp.ctlUrg v)} {bit (Tcp.ctlAck v)} {bit (Tcp.ctlPsh v)} {bit (Tcp.ctlRst v)} {bit (Tcp.ctlSyn v)} {bit (Tcp.ctlFin v)}"
+  | _, _ => none
+
+/-- state = the `ck` flag -/
+def step (ck : Bool) (ws : List String) : Bool × String :=
+  match ws with
+  | ["case", id] => (ck, s!"case {id}")
+  | ["ck", v] => (v == "1", s!"ck {v}")
+  | op :: rest =>
+    let r :=
+      if op.startsWith "ip4" then ip4Op ck op rest
+      else if op == "cksum" then cksumOp ck rest
+      else if op.startsWith "udp" then udpOp ck op rest
+      else if op.startsWith "tcp" then tcpOp ck op rest
+      else none
+    (ck, r.getD "bad-op")
+  | [] => (ck, "bad-op")
+
+def dispatch (sub : String) (i o : IO.FS.Stream) : Option (IO Unit) :=
+  if sub == "c08-ipv4" || sub == "c08-udp" || sub == "c08-tcp" then
+    some (Driver.loop i o step false)
+  else none
 
 end Driver.C08
